@@ -39,6 +39,9 @@ fn main() {
     if driver == "c18child" {
         drivers::c18::child(&kv);
     }
+    if driver == "c20child" {
+        drivers::c20::child(&kv);
+    }
     let get = |k: &str, d: &str| kv.get(k).cloned().unwrap_or_else(|| d.to_string());
     let tier = if get("tier", "quick") == "thorough" { Tier::Thorough } else { Tier::Quick };
     let mut ctx = Ctx {
